@@ -438,6 +438,37 @@ func CheckC12(v *View, st Stats) []Violation {
 		if v.Set != nil && s.ObservedGeneration != v.Set.Generation {
 			out = append(out, viol("C12", "observed-generation", "status.observedGeneration=%d but the reconciled set has generation %d", s.ObservedGeneration, v.Set.Generation))
 		}
+		if v.Active() {
+			// the written counters must be a census of the snapshot the reconcile acted on
+			ready, creates, terminalDeletes := 0, 0, 0
+			seenDel := map[string]bool{}
+			for _, p := range v.Claimed {
+				if world.IsReady(p) {
+					ready++
+				}
+			}
+			for _, d := range v.R.Calls {
+				if d.Seq > c.Seq || !d.OK() || d.Res != simapi.Pods {
+					continue
+				}
+				if d.Verb == "create" {
+					creates++
+				}
+				if d.Verb == "delete" && !seenDel[d.Name] {
+					seenDel[d.Name] = true // only the first delete of a name can be the replacement of the terminal pod
+					if p := v.claimedByName(d.Name); p != nil && isTerminal(p) && v.deleteClass(p) == "b" {
+						terminalDeletes++
+					}
+				}
+			}
+			st.Inc("status_census_checks")
+			if int(s.ReadyReplicas) != ready {
+				out = append(out, viol("C12", "ready-census", "status.readyReplicas=%d written but the reconcile saw %d Running+Ready pods", s.ReadyReplicas, ready))
+			}
+			if want := len(v.Claimed) + creates - terminalDeletes; int(s.Replicas) != want {
+				out = append(out, viol("C12", "replicas-census", "status.replicas=%d written but the reconcile saw %d pods, created %d and replaced %d", s.Replicas, len(v.Claimed), creates, terminalDeletes))
+			}
+		}
 		before, _ := c.Before.(*asv1.StatefulSet)
 		if before == nil || v.Set == nil {
 			continue
@@ -610,6 +641,16 @@ func CheckC11(v *View, st Stats) []Violation {
 	var out []Violation
 	if v.Set == nil {
 		return nil
+	}
+	// a set that carries a deletion timestamp in the API adopts nothing, even when the cache is stale:
+	// every adoption must be preceded by an uncached read, and deletion timestamps never go away
+	if api, _ := v.R.Before.Get(simapi.Sets, v.Set.Namespace, v.Set.Name).(*asv1.StatefulSet); api != nil && api.UID == v.Set.UID && api.DeletionTimestamp != nil {
+		st.Inc("reconciles_of_sets_deleting_in_api")
+		for _, c := range v.R.Writes() {
+			if c.Verb == "patch" && c.OK() && strings.Contains(string(c.Patch), `"controller":true`) && strings.Contains(string(c.Patch), string(v.Set.UID)) {
+				out = append(out, viol("C11", "adoption-by-deleting-set", "the set carries a deletion timestamp in the API (stale cache: %v) but adopted: %s", !v.Deleting, c))
+			}
+		}
 	}
 	if v.Paused {
 		st.Inc("paused_reconciles_checked")
